@@ -134,7 +134,10 @@ def construct_digest(node):
             return _ast.arg(arg=names.setdefault(n.arg, f"v{len(names)}"), annotation=None)
     import copy
     try:
-        canon = Canon().visit(copy.deepcopy(node))
+        node = copy.deepcopy(node)
+        if isinstance(node, _ast.If):
+            node.orelse = []        # an `if` stands for its own test and body, not for the rest of an elif chain
+        canon = Canon().visit(node)
         text = _ast.dump(canon, annotate_fields=False, include_attributes=False)
     except Exception:
         return None
